@@ -61,8 +61,28 @@ pub enum Exec {
     Foreach { array: Expr, item: String, index: Option<String>, body: Vec<Exec> },
     Log(Expr),
     /// <send> through the SCXML processor. target: None = own external queue, Some("#_internal"), ...
-    Send { event: String, target: Option<String>, delay_ms: u64, id: Option<String>, params: Vec<(String, Expr)> },
-    Cancel { sendid: String },
+    Send {
+        event: String,
+        target: Option<String>,
+        delay_ms: u64,
+        id: Option<String>,
+        params: Vec<(String, Expr)>,
+        /// spelling of the delay as written in the document (e.g. "1.5s"); None = "<delay_ms>ms"
+        #[serde(default)]
+        delay_text: Option<String>,
+        /// render the delay as delayexpr="'<text>'"
+        #[serde(default)]
+        delay_expr: bool,
+        /// idlocation instead of id: the generated id is stored in this variable
+        #[serde(default)]
+        idlocation: Option<String>,
+    },
+    Cancel {
+        sendid: String,
+        /// render as sendidexpr="<variable>"
+        #[serde(default)]
+        by_expr: Option<String>,
+    },
 }
 
 #[derive(Clone, Debug, Serialize, Deserialize, PartialEq, Default)]
@@ -211,15 +231,22 @@ fn render_exec(out: &mut String, x: &Exec, dm: Dm, ind: usize) {
             out.push_str(&format!("{}</foreach>\n", pad));
         }
         Exec::Log(e) => out.push_str(&format!("{}<log expr=\"{}\"/>\n", pad, esc(&render_expr(e, dm)))),
-        Exec::Send { event, target, delay_ms, id, params } => {
+        Exec::Send { event, target, delay_ms, id, params, delay_text, delay_expr, idlocation } => {
             out.push_str(&format!("{}<send event=\"{}\"", pad, event));
             if let Some(t) = target {
                 out.push_str(&format!(" target=\"{}\"", esc(t)));
             }
-            if *delay_ms > 0 {
-                out.push_str(&format!(" delay=\"{}ms\"", delay_ms));
+            if *delay_ms > 0 || delay_text.is_some() {
+                let txt = delay_text.clone().unwrap_or_else(|| format!("{}ms", delay_ms));
+                if *delay_expr {
+                    out.push_str(&format!(" delayexpr=\"'{}'\"", txt));
+                } else {
+                    out.push_str(&format!(" delay=\"{}\"", txt));
+                }
             }
-            if let Some(i) = id {
+            if let Some(l) = idlocation {
+                out.push_str(&format!(" idlocation=\"{}\"", l));
+            } else if let Some(i) = id {
                 out.push_str(&format!(" id=\"{}\"", i));
             }
             if params.is_empty() {
@@ -232,7 +259,10 @@ fn render_exec(out: &mut String, x: &Exec, dm: Dm, ind: usize) {
                 out.push_str("</send>\n");
             }
         }
-        Exec::Cancel { sendid } => out.push_str(&format!("{}<cancel sendid=\"{}\"/>\n", pad, sendid)),
+        Exec::Cancel { sendid, by_expr } => match by_expr {
+            Some(v) => out.push_str(&format!("{}<cancel sendidexpr=\"{}\"/>\n", pad, v)),
+            None => out.push_str(&format!("{}<cancel sendid=\"{}\"/>\n", pad, sendid)),
+        },
     }
 }
 
@@ -605,7 +635,7 @@ impl<'a> G<'a> {
                     let inner = if self.rng.chance(1, 2) {
                         Exec::Raise(format!("r.{}", self.rng.pick(ALPHABET)))
                     } else {
-                        Exec::Send { event: format!("r.{}", self.rng.pick(ALPHABET)), target: Some("#_internal".into()), delay_ms: 0, id: None, params: vec![] }
+                        Exec::Send { event: format!("r.{}", self.rng.pick(ALPHABET)), target: Some("#_internal".into()), delay_ms: 0, id: None, params: vec![], delay_text: None, delay_expr: false, idlocation: None }
                     };
                     self.budgeted(inner)
                 }
@@ -652,7 +682,7 @@ impl<'a> G<'a> {
                     }
                 }
                 4 => {
-                    let inner = Exec::Send { event: format!("x.{}", self.rng.pick(ALPHABET)), target: None, delay_ms: 0, id: None, params: vec![] };
+                    let inner = Exec::Send { event: format!("x.{}", self.rng.pick(ALPHABET)), target: None, delay_ms: 0, id: None, params: vec![], delay_text: None, delay_expr: false, idlocation: None };
                     self.budgeted(inner)
                 }
                 5 => {
